@@ -122,3 +122,107 @@ class BubbleSort:
         return where
 
     modifies = ()
+
+
+# ------------------------------------------------------------------ stack sort
+# One pass through a stack (push every entry; before pushing, pop to the output while the top is smaller;
+# empty the stack at the end).  For input positions x < y: the entry at x is still on the stack when y is
+# pushed - and then leaves after y - exactly when no entry in (x, y] is larger than it.  So with pos(p) the output
+# position of the entry at input position p:
+#
+#       for x < y:   pos(x) < pos(y)   <=>   some c in (x, y] has s[c] > s[x]
+#
+# and pos is a bijection of the positions with result[pos(p)] == s[p].  That determines the output.
+# Perm._stack_sort is the recursion S(L max R) = S(L) S(R) max; `pos` and its inverse `src` are GHOST OUTPUTS of
+# the contract: a caller gets them as fresh functions constrained by the postcondition, the function's own
+# verification builds them from those of its recursive calls (partial correctness).
+def _stack_post(c, s, n, result, src, pos):
+    ps = (lambda j: [src(j), result[j]]) if c.mode == "sym" else None
+    pp = (lambda p: pos(p)) if c.mode == "sym" else None
+    return c.and_(
+        c.len(result) == n,
+        c.forall(0, n, lambda j: c.and_(src(j) >= 0, src(j) < n, lambda: c.and_(pos(src(j)) == j, result[j] == s[src(j)])), pattern=ps),
+        c.forall(0, n, lambda p: c.and_(pos(p) >= 0, pos(p) < n, lambda: src(pos(p)) == p), pattern=pp),
+        c.forall2(0, n, lambda x, y: c.implies(x < y, lambda: c.iff(pos(x) < pos(y), c.exists(x + 1, y + 1, lambda k: s[k] > s[x]))),
+                  pattern=(lambda x, y: (pos(x), pos(y))) if c.mode == "sym" else None),
+    )
+
+
+def _stack_positions(s):
+    """run time: output position of every input position, by simulating the device"""
+    stack, out = [], []
+    for p, v in enumerate(s):
+        while stack and s[stack[-1]] < v:
+            out.append(stack.pop())
+        stack.append(p)
+    while stack:
+        out.append(stack.pop())
+    pos = {p: j for j, p in enumerate(out)}
+    return out, pos
+
+
+@contract("Perm._stack_sort", params={"perm_slice": "IntList"}, returns="List", props=P)
+class StackSortInner:
+    ghost_outputs = ("src", "pos")
+    named_slices = True
+
+    def requires(c, perm_slice):
+        return c.true()
+
+    def ensures(c, perm_slice, result):
+        return _stack_post(c, perm_slice, c.len(perm_slice), result, c.gout("src"), c.gout("pos"))
+
+    @staticmethod
+    def ghost_witness(c, st, calls):
+        n = c.len(st.perm_slice)
+        if len(calls) == 0:      # at most one entry: nothing moves
+            return {"src": lambda j: c.int(j), "pos": lambda p: c.int(p)}
+        m = c.int(st.max_i)
+        if len(calls) == 1:      # the maximum is first or last: one recursive call on the rest
+            g = calls[0]
+            return {
+                "src": lambda j: c.ite(c.int(j) == n - 1, m, c.ite(m == 0, g["src"](j) + 1, g["src"](j))),
+                "pos": lambda p: c.ite(c.int(p) == m, n - 1, c.ite(m == 0, g["pos"](c.int(p) - 1), g["pos"](p))),
+            }
+        left, right = calls      # S(L) S(R) max
+        return {
+            "src": lambda j: c.ite(c.int(j) == n - 1, m, c.ite(c.int(j) < m, left["src"](j), right["src"](c.int(j) - m) + m + 1)),
+            "pos": lambda p: c.ite(c.int(p) == m, n - 1, c.ite(c.int(p) < m, left["pos"](p), right["pos"](c.int(p) - m - 1) + m)),
+        }
+
+    @staticmethod
+    def ghost_run(perm_slice, result):
+        out, pos = _stack_positions(list(perm_slice))
+        return {"src": lambda j: out[j] if 0 <= j < len(out) else -10 ** 9, "pos": lambda p: pos.get(p, -10 ** 9)}
+
+    modifies = ()
+
+
+def _where(c, p, v):
+    if c.mode == "run":
+        t = tuple(p)
+        return t.index(v) if v in t else -10 ** 9
+    return p.meta["ginv"](v)
+
+
+@contract("Perm.stack_sort", params={"self": "Perm"}, returns="Perm", props=P)
+class StackSort:
+    def requires(c, self):
+        return c.is_perm(self)
+
+    def ensures(c, self, result):
+        n = c.len(self)
+        at = lambda x: _where(c, result, self[x])  # noqa: E731  output position of the entry at input position x
+        return c.and_(
+            c.len(result) == n,
+            c.is_perm(result),
+            c.forall2(0, n, lambda x, y: c.implies(x < y, lambda: c.iff(at(x) < at(y), c.exists(x + 1, y + 1, lambda k: self[k] > self[x]))),
+                      pattern=(lambda x, y: (self[x], self[y])) if c.mode == "sym" else None),
+        )
+
+    def ghost_inverse(c, self, result):
+        g = self.meta["ginv"]
+        pos = c.calls[0]["pos"]
+        return lambda v: pos(g(c.int(v)))
+
+    modifies = ()
